@@ -177,7 +177,7 @@ def last_seg(path):
             depth -= 1
         elif depth == 0:
             out.append(c)
-    return ''.join(out).split('::')[-1]
+    return ''.join(out).rstrip(':').split('::')[-1]
 
 
 def pat_paths(p):
@@ -230,3 +230,14 @@ def node_panics(node):
                 'panic', 'todo', 'unimplemented', 'unreachable'):
             return True
     return False
+
+
+def arm_rejects(body):
+    """The arm body is nothing but a panic macro (`=> panic!(..)`, `=> todo!()`, `=> { unreachable!() }`)."""
+    n = body
+    while isinstance(n, dict) and n.get('k') == 'block' and len(n.get('stmts', [])) == 1:
+        n = n['stmts'][0]
+        if n.get('k') == 'semi':
+            n = n['expr']
+    return isinstance(n, dict) and n.get('k') == 'macro' and last_seg(n.get('path')) in (
+        'panic', 'todo', 'unimplemented', 'unreachable')
